@@ -5,8 +5,9 @@ C15 — model of the document-to-chunks pipeline on top of C14's chunker:
     (`assignHeadingPaths`); the level of a title is a PARAMETER of the theorems (`levelOf`),
     the driver computes it from the reported font sizes with `levelsOfSizes` (the 5 % bucket ranking,
     in exact integer arithmetic on 1/100 pt).  The code runs this pass once PER PAGE (it is the last
-    step of `partition_fragments_with_graphics_raw`, which `do_partition_pages` calls per page);
-    `assignPerPage` mirrors that.
+    step of `partition_fragments_with_graphics_raw`, which `do_partition_pages` calls per page;
+    `assignPerPage`) and then once more over the whole document (`partitionHeadings`; the repair of
+    C15-F1 — the per-page result is overwritten).
   * `pipeline/rag.rs` `collect_pages`, `render_page`, `build_context_prefix`,
     `RagChunk::from_hybrid_chunk_inner`
   * `pipeline/chunk_metadata.rs` `content_chunk_id` (SHA-256 is a parameter `H`), `link_chunks`,
@@ -213,9 +214,20 @@ def splitPages : List Elem → List (List Elem)
     | (f :: g) :: more => if f.md.page = e.md.page then (e :: f :: g) :: more else [e] :: (f :: g) :: more
     | other => [e] :: other
 
-/-- `do_partition_pages`: the heading pass runs inside `partition_fragments_with_graphics_raw`,
-    i.e. separately on the elements of every page -/
+/-- the heading pass of `partition_fragments_with_graphics_raw`: it runs separately on the elements
+    of every page (`do_partition_pages` calls that function per page), with a fresh stack and a
+    ranking of the title sizes OF THAT PAGE (`levelOfPage`).  Before the repair of C15-F1 this was
+    the final word. -/
 def assignPerPage (levelOf : Elem → Nat) (els : List Elem) : List Elem :=
   (splitPages els).flatMap (assignHeadingPaths levelOf)
+
+/-- `do_partition_pages`: the per-page passes, then ONE `assign_heading_paths` over the
+    concatenation of all pages (stack and size ranking `levelOfDoc` of the whole document) -/
+def partitionHeadings (levelOfPage levelOfDoc : Elem → Nat) (els : List Elem) : List Elem :=
+  assignHeadingPaths levelOfDoc (assignPerPage levelOfPage els)
+
+/-- what the heading pass overwrites -/
+def erasePath (e : Elem) : Elem :=
+  { e with md := { e.md with parentHeading := none, headingPath := [] } }
 
 end OxiVerif.C15
